@@ -188,6 +188,8 @@ RULES = [
     ('break-outside-loop', 'hue 5 break set all'),
     ('break-outside-loop', 'if {1 > 0} break'),
     ('break-outside-loop', 'define f begin break end'),
+    ('break-outside-loop', 'repeat begin define f begin break end end'),
+    ('break-outside-loop', 'repeat 2 begin set "Candle" begin break end end'),
     ('assign-to-macro', 'define m 5 assign m 6'),
     ('redefine-routine', 'define f begin print 1 end define f begin print 2 end'),
     ('undefined-name', 'hue xyz'),
